@@ -25,8 +25,8 @@ from phyclone.tree import Tree, FSCRPDistribution, TreeJointDistribution
 
 ID = "C13"
 LEVEL = "other"
-THEOREMS = ["conc_params", "mixture_density_identity", "eta_conditional", "alpha_conditional", "eta_marginal",
-            "kn_from_tree", "value_in_force", "conc_gibbs_partial"]
+THEOREMS = ["conc_params", "conc_params_zero", "mixture_density_identity", "eta_conditional", "alpha_conditional", "eta_marginal",
+            "kn_from_tree", "value_in_force", "value_in_force_off", "conc_gibbs_partial"]
 BUDGET = {"quick": 60, "thorough": 420}
 EXPLANATION = (
     "Partial proof.  Proved in Lean (kernel-checked, over the reals with Mathlib's gammaPDFReal / betaPDFReal): the model's "
